@@ -4,10 +4,12 @@
    filter hands a job exactly the positions of flagged chunks, so only chunks holding a checked stamp newer than the job's
    last version; a run followed by a second run with no stamp written in between is handed nothing, and the job's own
    stamps do not re-trigger it; the count of a filtered archetype is the number of positions in flagged chunks.
-   Not covered here: the chunk-size resolution (resolve_chunk) and the history-level statement over scripts. *)
+   The history-level statements over scripts (entities may be created, never destroyed or moved) are in the second half
+   of this file, proofs in proofs/VersionHistory.v.  Not covered: the chunk-size resolution (resolve_chunk) and histories
+   with destruction, removal or archetype moves. *)
 Require Import Coq.Lists.List Coq.NArith.NArith Coq.ZArith.ZArith Coq.Arith.Arith Coq.micromega.Lia.
 From Mustache Require Import Res Iter Manager Palette Properties_C07.
-From Mustache.proofs Require Import VersionProofs.
+From Mustache.proofs Require Import VersionProofs IterCover VersionHistory.
 Import ListNotations.
 
 (* ---- (2) chunk-precise: flag k and row k of the new stamps are check_and_set of the input row k alone ---- *)
@@ -157,3 +159,214 @@ Example C11_blocks_count_example :
   0 < 2 /\ 0 < 5 /\ length [true; false; true] = S ((5 - 1) / 2) /\
   filter_blocks 2 5 [true; false; true] = [(0, 2); (4, 5)] /\ blocks_count (filter_blocks 2 5 [true; false; true]) = 3.
 Proof. repeat split; try lia; reflexivity. Qed.
+
+(* ==================================================================================================================== *)
+(* HISTORY LEVEL (proofs/VersionHistory.v; vocabulary and limits: see the second half of Properties_C07.v) *)
+
+(* ---- (3a) quiescence over histories ---- *)
+(* population, any script `pre`; job jn runs and has work (is handed some entity h0); then only harmless operations:
+   updates, read-only access (VGetConst, VHas), mutable access / dirty marks of components OUTSIDE jn's check mask,
+   further runs of jn itself, runs of jobs that write no component of jn's check mask; then jn runs: it is handed nothing
+   and reports its unchanged last version.  checks_all: in every archetype it matches the job checks at least one
+   component (a job that checks nothing there is always handed everything).  A job that writes what it checks does not
+   wake itself. *)
+Theorem C11_history_quiet : forall n cis setup s0 js pre st0 jn j p0 t0 w0 c0 st1 out0 h0 mid st2 par tov wk cap st3 out_,
+  population n cis setup s0 -> fresh_jobs js ->
+  (N.of_nat (length pre) + N.of_nat (length mid) + 2 < WV_NULL)%N ->
+  vrun pre (s0, js) = Ok st0 ->
+  nth_error (snd st0) jn = Some j -> checks_all j (fst st0) ->
+  vstep st0 (VRun jn p0 t0 w0 c0) = Ok (st1, out0) -> handed out0 h0 ->
+  Forall (harmless (snd st0) jn (j_check j)) mid -> vrun mid st1 = Ok st2 ->
+  vstep st2 (VRun jn par tov wk cap) = Ok (st3, out_) ->
+  out_ = RJob (wv (fst st0)) [] /\ forall h, ~ handed out_ h.
+Proof. exact VersionHistory.C11_history_quiet. Qed.
+Print Assumptions C11_history_quiet.
+
+Theorem C11_history_quiet_from_invariant : forall st0 jn j p0 t0 w0 c0 st1 out0 h0 mid st2 par tov wk cap st3 out_,
+  VInv st0 -> (wv (fst st0) + N.of_nat (length mid) + 2 < WV_NULL)%N ->
+  nth_error (snd st0) jn = Some j -> checks_all j (fst st0) ->
+  vstep st0 (VRun jn p0 t0 w0 c0) = Ok (st1, out0) -> handed out0 h0 ->
+  Forall (harmless (snd st0) jn (j_check j)) mid -> vrun mid st1 = Ok st2 ->
+  vstep st2 (VRun jn par tov wk cap) = Ok (st3, out_) ->
+  out_ = RJob (wv (fst st0)) [] /\ forall h, ~ handed out_ h.
+Proof. exact C11_history_quiet_core. Qed.
+Print Assumptions C11_history_quiet_from_invariant.
+
+(* read-only access changes nothing at all: not a stamp, not the world version, not a job *)
+Theorem C11_readonly_no_effect : forall st o st' out_,
+  (exists h c, o = VGetConst h c \/ o = VHas h c) -> vstep st o = Ok (st', out_) -> st' = st.
+Proof. exact readonly_no_effect. Qed.
+Print Assumptions C11_readonly_no_effect.
+
+(* ---- (3b) chunk precision over histories ---- *)
+(* jn ran with work; then anything but runs of jn (entities may be created); then jn runs: every entity h it is handed
+   sits at a position idx of an archetype ai such that, in between, the stamp of (ai, version chunk idx / chunk size,
+   component index i) was written (stamped_in), where jn checks i -- or checks nothing in that archetype, which can
+   only be an archetype that appeared in between: checks_all covers those of st0 *)
+Theorem C11_history_precise : forall n cis setup s0 js pre st0 jn j p0 t0 w0 c0 st1 out0 h0 mid st2 par tov wk cap st3 out_ h,
+  population n cis setup s0 -> fresh_jobs js ->
+  (N.of_nat (length pre) + N.of_nat (length mid) + 2 < WV_NULL)%N ->
+  vrun pre (s0, js) = Ok st0 ->
+  nth_error (snd st0) jn = Some j -> checks_all j (fst st0) ->
+  vstep st0 (VRun jn p0 t0 w0 c0) = Ok (st1, out0) -> handed out0 h0 ->
+  no_run jn mid -> vrun mid st1 = Ok st2 -> 0 < cap ->
+  vstep st2 (VRun jn par tov wk cap) = Ok (st3, out_) -> handed out_ h ->
+  exists ai a idx i, nth_error (archs (fst st2)) ai = Some a /\ nth_error (am_ents a) idx = Some h /\
+    jmatch j a = true /\ (jcheck j a = [] \/ In i (jcheck j a)) /\ stamped_in ai (idx / am_chunk a) i st1 mid.
+Proof. exact VersionHistory.C11_history_precise. Qed.
+Print Assumptions C11_history_precise.
+
+Theorem C11_history_precise_from_invariant : forall st0 jn j p0 t0 w0 c0 st1 out0 h0 mid st2 par tov wk cap st3 out_ h,
+  VInv st0 -> (wv (fst st0) + N.of_nat (length mid) + 2 < WV_NULL)%N ->
+  nth_error (snd st0) jn = Some j -> checks_all j (fst st0) ->
+  vstep st0 (VRun jn p0 t0 w0 c0) = Ok (st1, out0) -> handed out0 h0 ->
+  no_run jn mid -> vrun mid st1 = Ok st2 -> 0 < cap ->
+  vstep st2 (VRun jn par tov wk cap) = Ok (st3, out_) -> handed out_ h ->
+  exists ai a idx i, nth_error (archs (fst st2)) ai = Some a /\ nth_error (am_ents a) idx = Some h /\
+    jmatch j a = true /\ (jcheck j a = [] \/ In i (jcheck j a)) /\ stamped_in ai (idx / am_chunk a) i st1 mid.
+Proof. exact C11_history_precise_core. Qed.
+Print Assumptions C11_history_precise_from_invariant.
+
+(* ... and what wrote it (cause): an operation o of the script, executed in the state st_o reached by the operations
+   before it, that is a mutable access / dirty mark of a component c of jn's check mask on an entity in version chunk k
+   of archetype ai, or the run of a job that writes such a component and was itself handed a position of that chunk,
+   or the creation of an entity that lands in that chunk (it stamps every component) *)
+Theorem C11_stamp_cause : forall st1 mid ai k i j a,
+  VInv st1 -> (wv (fst st1) + N.of_nat (length mid) < WV_NULL)%N ->
+  nth_error (archs (fst st1)) ai = Some a -> In i (jcheck j a) -> stamped_in ai k i st1 mid ->
+  exists pre o post st_o a_o, mid = pre ++ o :: post /\ vrun pre st1 = Ok st_o /\
+    nth_error (archs (fst st_o)) ai = Some a_o /\ grows a a_o /\ cause j a ai k i st_o a_o o.
+Proof. exact stamped_in_explained. Qed.
+Print Assumptions C11_stamp_cause.
+
+(* ---- non-vacuity ---- *)
+(* the population of Properties_C07 (five entities {0,1}, version chunks of 2); job 0 writes AND checks component 1 (and
+   reads 0); job 1 writes component 0 *)
+Definition jobs11_ex : list job :=
+  [ {| j_reqs := [(1, false, true); (0, true, true)]; j_check := 2%N; j_last := WV_NULL |};
+    {| j_reqs := [(0, false, true)]; j_check := 0%N; j_last := WV_NULL |} ].
+Definition st0q_ex : vstate := get_res (vrun [VUpdate true] (s0_ex, jobs11_ex)) vst_dummy.
+Definition st1q_ex : vstate := fst (get_res (vstep st0q_ex (VRun 0 false 0 0 16)) (vst_dummy, RNone)).
+Definition midq_ex : list vop :=
+  [VUpdate true; VGetConst (1, 0)%N 1; VHas (1, 0)%N 1; VGetMut (1, 0)%N 0 (Some 5%Z); VMarkDirty (2, 0)%N 0;
+   VRun 1 true 0 3 16; VRun 0 false 0 0 16; VUpdate false].
+Definition st2q_ex : vstate := get_res (vrun midq_ex st1q_ex) vst_dummy.
+
+Lemma fresh_jobs11 : fresh_jobs jobs11_ex.
+Proof. repeat constructor. Qed.
+
+Example C11_history_quiet_example :
+  exists j out0 st3 out_,
+  population 4 cis2 setup_ex s0_ex /\ fresh_jobs jobs11_ex /\
+  (N.of_nat (length [VUpdate true]) + N.of_nat (length midq_ex) + 2 < WV_NULL)%N /\
+  vrun [VUpdate true] (s0_ex, jobs11_ex) = Ok st0q_ex /\
+  nth_error (snd st0q_ex) 0 = Some j /\ checks_all j (fst st0q_ex) /\
+  vstep st0q_ex (VRun 0 false 0 0 16) = Ok (st1q_ex, out0) /\ handed out0 (0, 0)%N /\
+  Forall (harmless (snd st0q_ex) 0 (j_check j)) midq_ex /\ vrun midq_ex st1q_ex = Ok st2q_ex /\
+  vstep st2q_ex (VRun 0 true 0 3 16) = Ok (st3, out_) /\
+  out_ = RJob 1 [] /\ wv (fst st2q_ex) = 4%N.
+Proof.
+  eexists. eexists. eexists. eexists.
+  split; [apply population_ex|]. split; [apply fresh_jobs11|]. split; [vm_compute; reflexivity|].
+  split; [vm_compute; reflexivity|]. split; [vm_compute; reflexivity|]. split.
+  { unfold checks_all. let x := eval vm_compute in (archs (fst st0q_ex)) in replace (archs (fst st0q_ex)) with x by (vm_compute; reflexivity).
+    constructor; [|constructor]. intros _. vm_compute. discriminate. }
+  split; [vm_compute; reflexivity|]. split.
+  { vm_compute. eexists. eexists. split; [left; reflexivity|]. split; [left; reflexivity|reflexivity]. }
+  split.
+  { unfold midq_ex. constructor; [exact I|]. constructor; [exact I|]. constructor; [exact I|].
+    constructor; [vm_compute; reflexivity|]. constructor; [vm_compute; reflexivity|].
+    constructor.
+    { right. eexists. split; [vm_compute; reflexivity|]. intros c Hc. vm_compute in Hc. destruct Hc as [<-|[]]. reflexivity. }
+    constructor; [left; reflexivity|]. constructor; [exact I|]. constructor. }
+  split; [vm_compute; reflexivity|]. split; [vm_compute; reflexivity|]. split; vm_compute; reflexivity.
+Qed.
+
+Example C11_readonly_no_effect_example :
+  exists out_, vstep st1q_ex (VGetConst (1, 0)%N 1) = Ok (st1q_ex, out_) /\ out_ = RCell true (Some 1002%Z).
+Proof. eexists. split; vm_compute; reflexivity. Qed.
+
+(* after the run of job 0: a dirty mark on component 1 of entity 4 (alone in version chunk 2), a write to component 0 of
+   entity 0 (not checked), updates; job 0 is handed entity 4 only *)
+Definition midp_ex : list vop := [VUpdate true; VMarkDirty (4, 0)%N 1; VGetMut (0, 0)%N 0 (Some 9%Z); VUpdate false].
+Definition st2p_ex : vstate := get_res (vrun midp_ex st1q_ex) vst_dummy.
+
+Example C11_history_precise_example :
+  exists j out0 st3 out_,
+  population 4 cis2 setup_ex s0_ex /\ fresh_jobs jobs11_ex /\
+  (N.of_nat (length [VUpdate true]) + N.of_nat (length midp_ex) + 2 < WV_NULL)%N /\
+  vrun [VUpdate true] (s0_ex, jobs11_ex) = Ok st0q_ex /\
+  nth_error (snd st0q_ex) 0 = Some j /\ checks_all j (fst st0q_ex) /\
+  vstep st0q_ex (VRun 0 false 0 0 16) = Ok (st1q_ex, out0) /\ handed out0 (0, 0)%N /\
+  no_run 0 midp_ex /\ vrun midp_ex st1q_ex = Ok st2p_ex /\ 0 < 16 /\
+  vstep st2p_ex (VRun 0 true 0 3 16) = Ok (st3, out_) /\ handed out_ (4, 0)%N /\
+  handles_of out_ = [(4, 0)%N].
+Proof.
+  eexists. eexists. eexists. eexists.
+  split; [apply population_ex|]. split; [apply fresh_jobs11|]. split; [vm_compute; reflexivity|].
+  split; [vm_compute; reflexivity|]. split; [vm_compute; reflexivity|]. split.
+  { unfold checks_all. let x := eval vm_compute in (archs (fst st0q_ex)) in replace (archs (fst st0q_ex)) with x by (vm_compute; reflexivity).
+    constructor; [|constructor]. intros _. vm_compute. discriminate. }
+  split; [vm_compute; reflexivity|]. split.
+  { vm_compute. eexists. eexists. split; [left; reflexivity|]. split; [left; reflexivity|reflexivity]. }
+  split; [repeat constructor|]. split; [vm_compute; reflexivity|]. split; [lia|].
+  split; [vm_compute; reflexivity|]. split.
+  { vm_compute. eexists. eexists. split; [left; reflexivity|]. split; [left; reflexivity|reflexivity]. }
+  vm_compute. reflexivity.
+Qed.
+
+Lemma VInv_st1q_ex : VInv st1q_ex.
+Proof.
+  destruct population_ex as (Hp & _).
+  refine (proj1 (C07_history_invariants 4 cis2 setup_ex s0_ex jobs11_ex [VUpdate true; VRun 0 false 0 0 16] st1q_ex Hp fresh_jobs11 _ _));
+    vm_compute; reflexivity.
+Qed.
+
+Example C11_stamp_cause_example :
+  exists a, VInv st1q_ex /\ (wv (fst st1q_ex) + N.of_nat (length midp_ex) < WV_NULL)%N /\
+    nth_error (archs (fst st1q_ex)) 0 = Some a /\ In 1 (jcheck (nth 0 (snd st1q_ex) (j_ex 0)) a) /\
+    stamped_in 0 2 1 st1q_ex midp_ex.
+Proof.
+  eexists. split; [exact VInv_st1q_ex|]. split; [vm_compute; reflexivity|]. split; [vm_compute; reflexivity|].
+  split; [vm_compute; left; reflexivity|].
+  eapply si_later; [vm_compute; reflexivity|]. apply si_here. cbn [op_stamps]. eexists. eexists. split.
+  - split; [vm_compute; reflexivity|]. split; [eexists; split; [vm_compute; reflexivity|split; reflexivity]|].
+    split; [vm_compute; reflexivity|vm_compute; reflexivity].
+  - vm_compute. reflexivity.
+Qed.
+
+(* with a creation in between: after the run of job 0 a sixth entity arrives in version chunk 2 (next to entity 4); job 0
+   is handed that chunk only *)
+Definition midc_ex : list vop := [VUpdate true; VCreate 0 3%N [] false; VGetConst (0, 0)%N 1].
+Definition st2c11_ex : vstate := get_res (vrun midc_ex st1q_ex) vst_dummy.
+
+Example C11_history_precise_created_example :
+  exists st3 out_,
+  (N.of_nat (length [VUpdate true]) + N.of_nat (length midc_ex) + 2 < WV_NULL)%N /\
+  no_run 0 midc_ex /\ vrun midc_ex st1q_ex = Ok st2c11_ex /\
+  vstep st2c11_ex (VRun 0 true 0 3 16) = Ok (st3, out_) /\ handed out_ (5, 0)%N /\
+  handles_of out_ = [(4, 0); (5, 0)]%N /\
+  stamped_in 0 2 1 st1q_ex midc_ex.
+Proof.
+  eexists. eexists. split; [vm_compute; reflexivity|]. split; [repeat constructor|]. split; [vm_compute; reflexivity|].
+  split; [vm_compute; reflexivity|]. split.
+  { vm_compute. eexists. eexists. split; [right; left; reflexivity|]. split; [left; reflexivity|reflexivity]. }
+  split; [vm_compute; reflexivity|].
+  eapply si_later; [vm_compute; reflexivity|]. apply si_here. cbn [op_stamps].
+  eexists. eexists. eexists. eexists. split; [vm_compute; reflexivity|].
+  split; [vm_compute; reflexivity|]. split; [reflexivity|]. split; [vm_compute; reflexivity|vm_compute; reflexivity].
+Qed.
+
+(* checks_all is needed: a job that checks no component of a matching archetype (job 2 of Properties_C07: reads component
+   0, empty check mask) is handed everything at every run, whatever happened in between *)
+Example C11_no_check_always_everything :
+  exists st1 out1 st2 out2,
+    vstep (s0_ex, jobs_ex) (VRun 2 false 0 0 16) = Ok (st1, out1) /\ vstep st1 (VRun 2 false 0 0 16) = Ok (st2, out2) /\
+    handles_of out1 = [(0, 0); (1, 0); (2, 0); (3, 0); (4, 0)]%N /\ handles_of out2 = [(0, 0); (1, 0); (2, 0); (3, 0); (4, 0)]%N /\
+    ~ checks_all (nth 2 jobs_ex (j_ex 0)) s0_ex.
+Proof.
+  eexists. eexists. eexists. eexists. split; [vm_compute; reflexivity|]. split; [vm_compute; reflexivity|].
+  split; [vm_compute; reflexivity|]. split; [vm_compute; reflexivity|].
+  unfold checks_all. let x := eval vm_compute in (archs s0_ex) in replace (archs s0_ex) with x by (vm_compute; reflexivity).
+  intro F. inversion F as [|? ? H _]; subst. apply H; vm_compute; reflexivity.
+Qed.
